@@ -387,7 +387,7 @@ def run(ctx):
         else:
             run_chunks(ctx, sc, "G-" + name, 40000, growth=name in ("full-wb", "full-nb", "seq4", "edge"))
     if q:
-        run_chunks(ctx, allg, "G", len(allg), growth=True)
+        run_batch(ctx, allg, "G")          # (the growth pass over the G traces is part of the thorough tier)
     else:
         sims = gen_scripts(ctx, {"L": 40, "WarmBuild": 1, "Base": 65000}, rbs, simulate=(3000, 60), rng=rng)
         run_chunks(ctx, sims, "G-simulate", 40000, growth=True)
